@@ -329,8 +329,41 @@ func s12() *sched.Scenario {
 		}}
 }
 
+// S13: a stream client with a bound channel stops reading (its TCP window is full: the server's writes to it
+// block) while its peer keeps sending; then its allocation ends (Refresh 0). The relay goroutine is stuck in a
+// write, which is nobody's fault - but nothing else may depend on it: the teardown completes far enough for the
+// server to go on serving the other clients of the listener. At the end the stalled client goes away.
+func s13() *sched.Scenario {
+	return &sched.Scenario{Name: "S13-client-stops-reading-then-its-allocation-ends", Bound: bound(), FreeBound: -1, Opt: opt,
+		Body: func(*vsched.Sched) (func() []string, func()) {
+			w := sched.NewBW(sched.BCfg{Stream: true, CB: yieldCB})
+			c1, c2 := w.NewClient("c1"), w.NewClient("c2")
+			pa := w.NewPeer("A")
+			var f flags
+			vsched.Go("clients", func() {
+				r := c1.Do(wire.Allocate, udp)
+				relay, _ := r.XorAddr(wire.AttrXORRelayedAddress)
+				c1.Do(wire.ChannelBind, chanAttrs(0x4000, "A"))
+				c2.Do(wire.Allocate, udp)
+				c1.Conn.Peer().StallWrites(true) // the server's end of c1's connection
+				vsched.Mark()
+				_, _ = pa.WriteTo([]byte("to-a-client-that-does-not-read"), relay)
+				vsched.IdleSleep(time.Second)
+				c1.Fire(wire.Refresh, lifetime(0)) // the answer cannot be written either: do not wait for it
+				vsched.IdleSleep(time.Second)
+				if r2 := c2.Do(wire.Refresh, lifetime(600)); r2.Class == wire.Success {
+					f.set("c2-served")
+				}
+				_ = c1.Conn.Close() // the stalled client gives up: the blocked writes fail
+				f.set("clients")
+			})
+
+			return f.need("clients", "c2-served"), func() { _ = w.Srv.Close() }
+		}}
+}
+
 func scenarios() []*sched.Scenario {
-	return []*sched.Scenario{s1(), s2(), s3(), s4(), s5(), s6(), s7(), s8(), s10(), s11(), s12()}
+	return []*sched.Scenario{s1(), s2(), s3(), s4(), s5(), s6(), s7(), s8(), s10(), s11(), s12(), s13()}
 }
 
 func TestC18Sched(t *testing.T) {
